@@ -17,9 +17,9 @@ fi
 /venv/bin/python -m pytest -q -p no:cacheprovider --timeout=900 --continue-on-collection-errors --junitxml=/tmp/confirm.$ID.$K.xml $TESTS > /tmp/confirm.$ID.$K.tests.txt 2>&1
 git checkout -q -- .
 PYTHONPATH=$WT /venv/bin/python "$OUT/demo$K.py" > /tmp/confirm.$ID.$K.without.txt 2>&1; WO=$?
-python3 - "$ID" "$K" "$MODE" <<'PY'
+python3 - "$ID" "$K" "$MODE" "$W" "$WO" <<'PY'
 import json, sys, xml.etree.ElementTree as ET
-ID, K, MODE = sys.argv[1:4]
+ID, K, MODE, W, WO = sys.argv[1:6]
 b = json.load(open("/root/.vp/BASELINE.json")); stable = set(b["stable_pass"])
 passed, seen = set(), set()
 for tc in ET.parse(f"/tmp/confirm.{ID}.{K}.xml").getroot().iter("testcase"):
@@ -33,5 +33,7 @@ else:
     missing = sorted((stable & seen) - passed)
 print(f"tests: ran={len(seen)} stable_in_scope={len(stable & seen) if MODE!='full' else len(stable)} newly_failing={len(missing)}")
 for m in missing[:10]: print("   NEWLY FAILING", m)
+json.dump(dict(seed=f"{ID}-{K}", mode=MODE, ran=len(seen), stable=len(stable & seen) if MODE != "full" else len(stable), newly_failing=len(missing),
+               newly_failing_names=missing[:10], demo_with=int(W), demo_without=int(WO)), open(f"/tmp/confirm.{ID}.{K}.result.json", "w"))
 PY
-echo "demo with patch exit=$W ; without exit=$WO"
+echo "[$ID-$K] demo with patch exit=$W ; without exit=$WO"
